@@ -160,7 +160,16 @@ fn event_member(e: &'static Engine, api: Api, d_ns: u64, at_ns: u64) {
 /// timer list component: adders on `threads` harness threads, the timer thread is a harness thread too.
 /// ops per adder: digits = add a timer with that many half-milliseconds (0 => 0 ns), 'd' delete the adder's last timer
 fn timer_list(e: &'static Engine, adders: &'static [&'static str]) {
+    timer_list_prefilled(e, adders, 0)
+}
+
+/// `prefill`: that many timers with pairwise different, far away deadlines are pending when the window opens, so that the
+/// list keeps more interval lists than it wants to (HASH_CAP = 1024) and drops every list that runs empty
+fn timer_list_prefilled(e: &'static Engine, adders: &'static [&'static str], prefill: usize) {
     let tt: &'static TimerThread<usize> = Box::leak(Box::new(TimerThread::new()));
+    for i in 0..prefill {
+        std::mem::forget(tt.add_timer(Duration::from_nanos(3_600_000_000_000 + 1_000 * i as u64), 900_000 + i));
+    }
     let fired: &'static StdMutex<Vec<(usize, u64)>> = Box::leak(Box::new(StdMutex::new(vec![])));
     // data = adder * 100 + index; deadlines recorded by the adders
     let due: &'static StdMutex<Vec<(usize, u64, bool)>> = Box::leak(Box::new(StdMutex::new(vec![])));
@@ -250,6 +259,47 @@ fn timer_list(e: &'static Engine, adders: &'static [&'static str]) {
     e.note(&format!("fired={}", fired.len()));
 }
 
+/// many distinct intervals: `n` timers with pairwise different durations (1 us apart), added by one thread, all left to
+/// expire; then one more of the first duration. Every one fires exactly once, none early.
+fn many_intervals(e: &'static Engine, n: usize) {
+    let tt: &'static TimerThread<usize> = Box::leak(Box::new(TimerThread::new()));
+    let fired: &'static StdMutex<Vec<(usize, u64)>> = Box::leak(Box::new(StdMutex::new(vec![])));
+    e.spawn("timer", move || {
+        let f = move |data: usize| {
+            fired.lock().unwrap().push((data, may::verif::now()));
+        };
+        tt.run(&f);
+    });
+    e.begin();
+    let t0 = may::verif::now();
+    let mut due = vec![];
+    for i in 0..n {
+        let d = Duration::from_nanos(1_000 * (i as u64 + 1));
+        due.push(may::verif::now() + d.as_nanos() as u64);
+        std::mem::forget(tt.add_timer(d, i));
+    }
+    e.vsleep(1_000 * (n as u64 + 10));
+    e.quiesce();
+    let d = Duration::from_nanos(1_000);
+    due.push(may::verif::now() + 1_000);
+    std::mem::forget(tt.add_timer(d, n));
+    e.vsleep(10_000);
+    e.quiesce();
+    let f = fired.lock().unwrap().clone();
+    for i in 0..=n {
+        let mine: Vec<&(usize, u64)> = f.iter().filter(|x| x.0 == i).collect();
+        if mine.len() != 1 {
+            e.fail("never_fired", &format!("timer {} of {} distinct intervals fired {} times (fired in total: {}, panics: {:?})", i, n, mine.len(), f.len(), e.panics().last()));
+        }
+        if mine[0].1 < due[i] {
+            e.fail("fired_early", &format!("timer {} fired at {} before its deadline {}", i, mine[0].1, due[i]));
+        }
+    }
+    let _ = t0;
+    e.count(n as u64 + 1);
+    e.note(&format!("fired={}", f.len()));
+}
+
 fn name_of(api: Api) -> &'static str {
     match api {
         Api::Sleep => "sleep",
@@ -314,6 +364,23 @@ pub fn build(quick: bool) -> Vec<Scenario> {
     // timer list component
     // fine granularity: the entry list (mpsc_list_v1) and the heap bookkeeping are interleaved step by step;
     // 's' = the adder first sleeps 1 ms, so that its add coincides with the expiry of an earlier 1 ms timer
+    // more than HASH_CAP (1024) distinct intervals pending: per-interval lists that run empty are dropped and re-created
+    for (i, adders) in [&["2d", "2"][..], &["2", "s2"], &["2", "2"], &["22", "s2"], &["2", "s2s2"]].into_iter().enumerate() {
+        let adders: &'static [&'static str] = adders;
+        if quick && i >= 2 {
+            continue;
+        }
+        v.push(
+            Scenario::new("C08", "timer_list_many_intervals", format!("timerlist.{}.1030_intervals_pending", adders.join("_")), Arc::new(move |e| timer_list_prefilled(e, adders, 1030)))
+                .fine()
+                .t2()
+                .vt_horizon(100 * MS)
+                .tier(quick),
+        );
+    }
+    for n in [3usize, 1030] {
+        v.push(Scenario::new("C08", "many_intervals", format!("timerlist.distinct_intervals.n{}", n), Arc::new(move |e| many_intervals(e, n))).sequential().bound(0).horizon(u64::MAX).vt_horizon(100 * MS));
+    }
     if std::env::var_os("MAYVERIF_EXPERIMENT").is_some() {
         for adders in [&["2", "s2r"][..], &["22", "s2r"], &["2", "2r"], &["2", "s2r2"]] {
             let adders: &'static [&'static str] = adders;
